@@ -30,7 +30,7 @@ processors).  On a reference-free connection list `acc` is the list itself (`fla
 Recursion (`incorporateFlow`) is bounded by FUEL; mutually referencing flows exhaust it (in Go: unbounded
 recursion, C05's F05b).  Not modelled: `foreignRoot` surviving from one direction / flow to the next (it is a
 field of the builder; it is nil again after every successful incorporation unless a flow declares a stream entry
-to a node that another flow created under the same key), dotted processor references (`otherFlow.key`).
+to a node that another flow created under the same key), references to system flows (borrowed processors `otherFlow.key` are modelled: `instanceOf`).
 -/
 namespace LunarVerif.FlowGraph
 
@@ -107,11 +107,50 @@ def procsOfRep (reps : List RFlowRep) (n : String) : List (String × String) :=
   | some f => f.procs
   | none => []
 
-/-- `getOrCreateNode(cur, ref)`: an existing node is reused; a new one needs a processor instance of flow `cur` -/
+/-! `ProcessorRef.parseRef`: a processor reference `name` is `key` (a processor of the flow whose connection list
+    is being processed) or `otherFlow.key` (a processor BORROWED from another flow: the node key — `ReferenceName` —
+    is the whole dotted string, the processor instance is `otherFlow`'s `key`). -/
+
+def splitDots : List Char → List Char → List (List Char)
+  | [], acc => [acc.reverse]
+  | c :: cs, acc => if c == '.' then acc.reverse :: splitDots cs [] else splitDots cs (c :: acc)
+
+def keyParts (k : String) : List String := (splitDots k.toList []).map String.ofList
+
+/-- (flow that created the processor instance, instance name) of a node key seen while processing flow `cur`;
+    `none`: more than one dot ("invalid processor key") -/
+def instanceOf (cur k : String) : Option (String × String) :=
+  match keyParts k with
+  | [n] => some (cur, n)
+  | [f, n] => some (if f == "" then cur else f, n)
+  | _ => none
+
+/-- the processor instance's own name (`ProcessorI.GetName`): what a processor reports when it runs -/
+def bareKey (k : String) : String :=
+  match keyParts k with
+  | [_, n] => n
+  | _ => k
+
+/-- `flowBuilder.validateCondition` / `GetProcessorDefinitionByKey(cur, ref)`: a processor of `cur` with the same
+    bare name takes precedence over the borrowed one -/
+def validateConditionR (pts : List PType) (reps : List RFlowRep) (d : Dir) (cur k cond : String) : Bool :=
+  match instanceOf cur k with
+  | none => true
+  | some (f, n) =>
+    if (procsOfRep reps cur).any (·.1 == n) then validateCondition pts (procsOfRep reps cur) d n cond
+    else if f == cur then true
+    else validateCondition pts (procsOfRep reps f) d n cond
+
+/-- `getOrCreateNode(cur, ref)`: an existing node is reused; a new one needs the processor instance
+    (`GetProcessorInstance(createdByFlow, name)`) -/
 def getOrCreateF (reps : List RFlowRep) (cur : String) (s : FState) (k : String) : Option FState :=
   if s.owner.any (·.1 == k) then some s
-  else if (procsOfRep reps cur).any (·.1 == k) then some { s with owner := s.owner ++ [(k, cur)] }
-  else none
+  else
+    match instanceOf cur k with
+    | none => none
+    | some (f, n) =>
+      if (procsOfRep reps f).any (·.1 == n) then some { s with owner := s.owner ++ [(k, cur)] }
+      else none
 
 /-- `buildConnection(cur, flowDir, conn)` where `flowDir` is direction `d` of flow `home`; `inc g s` is
     `incorporateFlow(g, flowDir)` started in state `s`. -/
@@ -119,7 +158,7 @@ def stepF (pts : List PType) (reps : List RFlowRep) (d : Dir) (home cur : String
     (inc : String → FState → Except RefErr FState) (s : FState) (c : RConn) : Except RefErr FState :=
   let condOk : Bool :=
     match c.src with
-    | .proc f cond => validateCondition pts (procsOfRep reps cur) d f cond
+    | .proc f cond => validateConditionR pts reps d cur f cond
     | _ => true
   if !condOk then .error (.build .condition) else
   match c.src, c.dst with
@@ -241,6 +280,12 @@ def buildFlowRef (pts : List PType) (reps : List RFlowRep) (fuel : Nat) (rep : R
         | .ok _ =>
           if !rq.isDefined && !rs.isDefined then .error (.build .undefined)
           else .ok ⟨⟨rep.name, rq, rs⟩, ro, so⟩
+
+/-- some connection names a borrowed processor (`otherFlow.key`) -/
+def RFlowRep.borrows (f : RFlowRep) : Bool :=
+  (f.req ++ f.res).any fun c =>
+    (match c.src with | .proc k _ => k.toList.contains '.' | _ => false) ||
+    (match c.dst with | .proc k _ => k.toList.contains '.' | _ => false)
 
 /-- flows referenced (in either direction) by a flow -/
 def RFlowRep.refs (f : RFlowRep) : List String :=
